@@ -16,6 +16,15 @@ def gen(rng: random.Random, tier: str):
         kk = rng.randint(1, 4)
         yield {"algo": "item" if k % 2 == 0 else "user", "rows": rows, "explicit": explicit, "k": kk, "min_nbrs": rng.randint(1, min(kk, 3)),
                "min_sim": rng.choice([1e-6, 0.05, 0.2]), "save_nbrs": rng.choice([None, None, 1, 2, 3]), "block": rng.choice([1, 2, 3, 250])}
+    # directed: dense explicit data and a small k — neighbourhoods larger than k on both scoring paths
+    for algo in ("item", "item", "user"):
+        rows = [[100 + u, 1000 + i, float(rng.choice([1, 2, 3, 4, 5]))] for u in range(7) for i in range(6) if rng.random() < 0.85]
+        yield {"algo": algo, "rows": rows, "explicit": True, "k": rng.choice([1, 2]), "min_nbrs": 1, "min_sim": 1e-6, "save_nbrs": None, "block": 250}
+    # directed: implicit users with four items each, neighbours sharing exactly two — a cosine of exactly 1/2 (every operation is exact in
+    # binary floating point), and a threshold of exactly 1/2: a neighbour AT the threshold qualifies
+    base = [0, 1, 2, 3]
+    rows = [[100, 1000 + i, 1.0] for i in base] + [[101, 1000 + i, 1.0] for i in (0, 1, 4, 5)] + [[102, 1000 + i, 1.0] for i in (2, 3, 6, 7)] + [[103, 1000 + i, 1.0] for i in (4, 5, 6, 7)]
+    yield {"algo": "user", "rows": rows, "explicit": False, "k": 3, "min_nbrs": 1, "min_sim": 0.5, "save_nbrs": None, "block": 250, "exact_threshold": True}
 
 def _near(x, y, tol): return abs(x - y) <= tol * max(1.0, abs(x), abs(y))
 
@@ -126,7 +135,7 @@ def _user(case, lean):
         u = label
         sims = (UV @ qvec).astype("f4")
         if un is not None: sims[un] = 0
-        if any(abs(float(s) - ms) < min(1e-5, ms / 2) for s in sims): continue     # float rounding at the threshold decides membership
+        if any(abs(float(s) - ms) < min(1e-5, ms / 2) and not (case.get("exact_threshold") and float(s) == ms) for s in sims): continue     # float rounding at the threshold decides membership (unless equality is exact by construction)
         items = ItemList(item_ids=list(ds.items.ids()))
         try: sc = m(qobj, items).scores()
         except Exception as e: corr = False; failed.append(f"{label}: raised {type(e).__name__}"); continue
